@@ -14,6 +14,17 @@ E2 (bounded-exhaustive enumeration), five families of roots:
   quotients n/k within 5e-7 of a whole number must not be rounded (k-1
   samples: refusal; 2k-1 samples: ONE window).  Quick runs the decisive
   lengths of two (rate, window) pairs, thorough all lengths of five pairs.
+* ``tiling-long`` - the same three call sites and the same reference for records of about 1200 (thorough:
+  also 3000) windows whose duration is not exact in binary (0.7, 0.1, 0.3 s at 1000, 300, 500, 75, 100,
+  128 Hz; thorough adds 150 and 50 Hz, 1.1 and 0.07 s): window j must start on sample j*k for EVERY j, so
+  whatever is accumulated from window to window must not drift.
+* ``orient``    - deployed heading x turn (requested orientation - deployed heading: 0, a general angle,
+  quarter, half, whole and one-and-a-half turns, negative, beyond 360, a twentieth of a degree) x window
+  (1 s / no splitting) x corners x detrend x {1, 3} recordings (the others deployed half a turn and 15
+  degrees away).  ``preprocess`` must equal the pipeline whose FIRST step is the independent plane rotation
+  ``hvmc.ref.rotation.reorient`` (rtol 1e-9).  The order / unsplit families use the same rotation
+  reference; a mismatch that vanishes when the library's own ``orient_sensor_to`` is substituted is reported
+  as ``orientation-not-the-reference-rotation``, every other one as ``order``.
 * ``order``     - rate x window x record length x filter corners x detrend x
   orientation x number of recordings (quick: every case within 3 deviations of
   the default; thorough: the full product).  ``preprocess`` must equal, bit
@@ -44,6 +55,7 @@ from hvsrpy.seismic_recording_3c import SeismicRecording3C
 from hvmc.engine import product
 from hvmc.engine.core import bitwise_equal
 from hvmc.ref import tiling as RT
+from hvmc.ref import rotation as RR
 
 PROPERTY = "C10"
 
@@ -63,6 +75,24 @@ HUGE = [(500, "5000", ["k-1", "2k-1", "2k"]),
         (300, "8000", []),
         (75, "28000.01", []),
         (128, "16500", [])]
+
+# many windows (about 1200 and, thorough, 3000 per record) of a duration that is not exact in binary:
+# full product rate x window x record length (thorough: the longer lists)
+LONG_RATES = [1000, 300, 500, 75, 100, 128]
+LONG_WINDOWS = ["0.7", "0.1", "0.3"]
+LONG_LENGTHS = ["1200k+1", "1200k", "1203k-2"]
+LONG_RATES_THOROUGH = LONG_RATES + [150, 50]
+LONG_WINDOWS_THOROUGH = LONG_WINDOWS + ["1.1", "0.07"]
+LONG_LENGTHS_THOROUGH = LONG_LENGTHS + ["3000k+1"]
+
+# orientation: deployed heading of the (first) recording x turn = requested orientation - deployed heading
+ORIENT_DEPLOY = [0, 15, 45, 90, 200, -30, 359.95]
+ORIENT_TURN = [0, 40, 90, 180, -180, 270, 360, 540, -90, -400, 179.95, 0.05]
+ORIENT_OTHERS = [180, 15]        # headings of recordings two and three relative to the first
+ORIENT_CORNERS = [[1, 20], [None, None]]
+ORIENT_DETREND = ["linear", "none"]
+ORIENT_WINDOWS = ["1", None]
+ORIENT_CONFIGS = [(100, "3k+2"), (75, "2k+1"), (300, "5k")]      # (rate, record length); quick: the first two
 
 # preprocess without splitting (window_length_in_seconds=None); record lengths with k = 1 s of samples
 UNSPLIT_LENGTHS = ["3k+2", "k-1", "5k", "25"]
@@ -180,6 +210,30 @@ def locate(x, w):
     return (s, len(w))
 
 
+class Locator:
+    """``locate`` for many windows of one record: the record is sorted once, every window is found by
+    bisection (same answer as ``locate``: the window's first value must occur exactly once)."""
+
+    def __init__(self, x):
+        self.x = x
+        self.order = np.argsort(x, kind="stable")
+        self.sorted = x[self.order]
+
+    def __call__(self, w):
+        w = np.asarray(w)
+        if w.ndim != 1 or len(w) == 0:
+            return None
+        lo = int(np.searchsorted(self.sorted, w[0], side="left"))
+        hi = int(np.searchsorted(self.sorted, w[0], side="right"))
+        if hi - lo != 1:
+            return None
+        s = int(self.order[lo])
+        x = self.x
+        if s + len(w) > len(x) or not bitwise_equal(x[s:s + len(w)], w):
+            return None
+        return (s, len(w))
+
+
 def layout_problems(outcome, layouts, n, k):
     """Problems [(tag, text)] of one split outcome against the reference tiling.
 
@@ -222,14 +276,20 @@ def run_tiling(root, ctx, tier):
     wlen = float(window)
     rcls = rate_class(rate)
     huge = root.get("kind") == "tiling-huge"
+    many = root.get("kind") == "tiling-long"
     if huge:
         # one record of a few million samples at a time; fewer call variants (memory, time)
         rcls += "-huge-window"
+    if many:
+        # a thousand and more windows per record; fewer call variants (time)
+        rcls += "-many-windows"
+    reduced = huge or many
     for label in root.get("lengths", LENGTHS):
         n = n_samples_of(label, k)
         if n < 1:
             continue
         comps = distinct_components(n)
+        find = {c: (Locator(comps[c]) if many else (lambda w, x=comps[c]: locate(x, w))) for c in COMPONENTS}
         exp = RT.expectation(n, k)
         case = dict(rate=rate, dt=dt, window=window, n_samples=n, k=k, record=DISTINCT_TEXT)
         ctx.count("states")
@@ -239,6 +299,10 @@ def run_tiling(root, ctx, tier):
             ctx.count("huge_window_cases")
             if n == k - 1 or n == 2 * k - 1:
                 ctx.count("huge_window_cases_one_sample_short_of_a_whole_number_of_windows")
+        if many:
+            ctx.count("many_window_cases")
+            if exp["n_full"] >= 1000:
+                ctx.count("many_window_cases_with_1000_or_more_windows")
 
         def report(site, probs, outcome, lay, skip=(), case=case):
             for tag, text in probs:
@@ -263,8 +327,8 @@ def run_tiling(root, ctx, tier):
             ctx.count("transitions")
             lay = None
             if out[0] == "ok":
-                lay = [locate(comps[cname], w.amplitude) for w in out[1]]
-                if huge and all(w is not None for w in lay):
+                lay = [find[cname](w.amplitude) for w in out[1]]
+                if reduced and all(w is not None for w in lay):
                     base_windows[cname] = ("located", lay)      # bit-exact runs of the record: the layout says it all
                 else:
                     base_windows[cname] = [w.amplitude for w in out[1]]
@@ -291,12 +355,12 @@ def run_tiling(root, ctx, tier):
         rec = make_record(comps, dt)
         out = _call(lambda: rec.split(wlen))
         ctx.count("transitions")
-        self_check_3c(ctx, root, case, rcls, "split3c", out, comps, base_windows, n, k, base_tags, report)
+        self_check_3c(ctx, root, case, rcls, "split3c", out, comps, base_windows, n, k, base_tags, report, find)
 
         # --- preprocess, filter and detrend off ---------------------------------
         del rec, out
-        for detrend in (("none",) if huge else ("none", None)):
-            for nrec in (("list1",) if huge else ("list1", "three")):
+        for detrend in (("none",) if reduced else ("none", None)):
+            for nrec in (("list1",) if reduced else ("list1", "three")):
                 recs = [make_record(comps, dt)]
                 if nrec == "three":
                     recs = [make_record(comps, dt) for _ in range(3)]
@@ -317,22 +381,22 @@ def run_tiling(root, ctx, tier):
                     for r in range(len(recs)):
                         sub = ("ok", wins[r * per:(r + 1) * per])
                         self_check_3c(ctx, root, dict(case, detrend=detrend, recordings=len(recs), recording=r),
-                                      rcls, site, sub, comps, base_windows, n, k, base_tags, report)
+                                      rcls, site, sub, comps, base_windows, n, k, base_tags, report, find)
                 else:
                     self_check_3c(ctx, root, dict(case, detrend=detrend, recordings=len(recs)),
-                                  rcls, site, out, comps, base_windows, n, k, base_tags, report)
+                                  rcls, site, out, comps, base_windows, n, k, base_tags, report, find)
                 del recs, out
-        del comps, base_windows
+        del comps, base_windows, find
         if len(ctx.samples) < 2 and label == "2k" and not huge:
             ctx.sample(dict(kind="tiling", case=case, admissible_layouts=exp["layouts"]))
 
 
-def self_check_3c(ctx, root, case, rcls, site, out, comps, base_windows, n, k, base_tags, report):
+def self_check_3c(ctx, root, case, rcls, site, out, comps, base_windows, n, k, base_tags, report, find):
     """Judge a list of SeismicRecording3C windows: tiling reference + TimeSeries.split per component."""
     ctx.count("validated")
     lays = None
     if out[0] == "ok":
-        lays = [[locate(comps[c], getattr(w, c).amplitude) for w in out[1]] for c in COMPONENTS]
+        lays = [[find[c](getattr(w, c).amplitude) for w in out[1]] for c in COMPONENTS]
     probs = layout_problems(out, lays, n, k)
     report(site, probs, out, lays[0] if lays else None, skip=base_tags or (), case=case)
     ctx.outcome((site, out[0] if out[0] == "raised" else len(out[1])))
@@ -427,13 +491,17 @@ class _memoised_design:
         return False
 
 
-def pipeline(specs, dt, wlen, corners, detrend, orient, order="documented"):
+def pipeline(specs, dt, wlen, corners, detrend, orient, order="documented", rotation="reference"):
     with _memoised_design():
-        return _pipeline(specs, dt, wlen, corners, detrend, orient, order)
+        return _pipeline(specs, dt, wlen, corners, detrend, orient, order, rotation)
 
 
-def _pipeline(specs, dt, wlen, corners, detrend, orient, order="documented"):
+def _pipeline(specs, dt, wlen, corners, detrend, orient, order="documented", rotation="reference"):
     """Windows [(ns, ew, vt)] from the public primitives, applied per component.
+
+    rotation: 'reference'  the sensor is oriented by hvmc.ref.rotation.reorient (plane rotation written from
+                           the clockwise-from-north definition; independent of hvsrpy)
+              'library'    by SeismicRecording3C.orient_sensor_to (only used to tell WHICH step disagrees)
 
     order: 'documented'           orient -> filter record -> split -> detrend windows
            'filter-after-split'   orient -> split -> filter windows -> detrend windows
@@ -442,10 +510,13 @@ def _pipeline(specs, dt, wlen, corners, detrend, orient, order="documented"):
     out = []
     for comps, dfn in specs:
         arrays = {c: np.array(comps[c]) for c in COMPONENTS}
-        if orient is not None:
+        if orient is not None and rotation == "library":
             rec = make_record(arrays, dt, dfn)
             rec.orient_sensor_to(orient)
             arrays = {c: getattr(rec, c).amplitude for c in COMPONENTS}
+        elif orient is not None:
+            ns, ew = RR.reorient(arrays["ns"], arrays["ew"], dfn, orient)
+            arrays = dict(ns=ns, ew=ew, vt=arrays["vt"])
         per_comp = {}
         for c in COMPONENTS:
             a = arrays[c]
@@ -482,6 +553,26 @@ def compare_windows(obs, exp, exact, scale):
                     d = float(np.max(np.abs(oc - ec)))
                     return f"window {j} component {c} differs by up to {d:.3g}"
     return None
+
+
+def mismatch_oracle(got, specs, dt, wlen, corners, detrend, orient, scale):
+    """Which oracle a mismatch with the reference pipeline belongs to.
+
+    'orientation-not-the-reference-rotation' when the output IS the documented sequence of the library's
+    own primitives (so the steps and their order are right) but the orientation step is not the
+    clockwise-from-north rotation from the deployed heading to the requested one; 'order' otherwise.
+    """
+    if orient is None:
+        return "order"
+    lib = _call(lambda: pipeline(specs, dt, wlen, corners, detrend, orient, rotation="library"))
+    if lib[0] == "ok" and compare_windows(got, lib[1], exact=False, scale=scale) is None:
+        return "orientation-not-the-reference-rotation"
+    return "order"
+
+
+ORIENT_EXPECTED = ("orient (hvmc.ref.rotation.reorient: ns' = ns cos r + ew sin r, ew' = ew cos r - ns sin r, "
+                   "r = requested - deployed heading) -> Butterworth on the whole record -> split -> detrend each "
+                   "window, from TimeSeries.butterworth_filter/split/detrend")
 
 
 def run_order(root, ctx, tier):
@@ -528,10 +619,9 @@ def run_order(root, ctx, tier):
             ctx.nontrivial_case(("order", rate, window, label, ci, di, oi, ni))
         text = compare_windows(got, exp[1], exact=orient is None, scale=scale)
         if text is not None:
-            ctx.violation(f"C10:preprocess:{cls}:order", root, detail=case,
-                          expected="orient -> Butterworth on the whole record -> split -> detrend each "
-                                   "window, from TimeSeries.butterworth_filter/split/detrend and "
-                                   "SeismicRecording3C.orient_sensor_to",
+            which = mismatch_oracle(got, specs, dt, wlen, corners, detrend, orient, scale)
+            ctx.violation(f"C10:preprocess:{cls}:{which}", root, detail=case,
+                          expected=ORIENT_EXPECTED,
                           observed=text,
                           explanation=f"preprocess output is not the documented pipeline: {text}")
         # the wrong orders, for non-vacuity (single recording, no rotation)
@@ -548,6 +638,90 @@ def run_order(root, ctx, tier):
         if len(ctx.samples) < 5 and filt and detr and len(got) >= 2 and orient is not None:
             ctx.sample(dict(kind="order", case=case, windows=len(got),
                             first_window_ns_head=got[0][0][:3]))
+
+
+# ---------------------------------------------------------------------------
+# the orientation step: every relation between the deployed heading and the requested orientation
+
+def turn_class(turn):
+    """Class of a turn (requested orientation - deployed heading) in degrees."""
+    for name, a in (("whole-turn", 0.0), ("half-turn", 180.0), ("quarter-turn", 90.0), ("quarter-turn", 270.0)):
+        if RR.same_direction(turn, a):
+            return name
+    return "general-turn"
+
+
+def run_orient(root, ctx, tier):
+    """preprocess == reference rotation -> filter -> split -> detrend for every (deployed heading, turn).
+
+    Full product turn x window x corners x detrend x {1, 3} recordings under every (rate, record length,
+    deployed heading) root.  With three recordings the second is deployed half a turn and the third 15
+    degrees away from the first, so every relation also occurs on a recording that is not the first.
+    """
+    rate, label, deploy = root["rate"], root["length"], root["deploy"]
+    dt = dt_of(rate)
+    cache = {}
+    for window in ORIENT_WINDOWS:
+        wlen = None if window is None else float(window)
+        k = RT.intervals(window or "1", rate)
+        n = n_samples_of(label, k)
+        for turn in ORIENT_TURN:
+            target = deploy + turn
+            for corners in ORIENT_CORNERS:
+                for detrend in ORIENT_DETREND:
+                    for nrec in NREC:
+                        base = record_specs(rate, n, k, nrec, cache)
+                        heads = [deploy] + [deploy + o for o in ORIENT_OTHERS]
+                        specs = [(comps, heads[i]) for i, (comps, _) in enumerate(base)]
+                        classes = [turn_class(target - h) for _, h in specs]
+                        case = dict(rate=rate, dt=dt, window=window, n_samples=[len(c["ns"]) for c, _ in specs],
+                                    k=k, corners=corners, detrend=detrend, deployed_at=[h for _, h in specs],
+                                    orient_to=target, turns=classes, records=BUSY_TEXT)
+                        ctx.count("states")
+                        ctx.count("orient_cases")
+                        for cl in classes:
+                            ctx.count("orient_recordings:" + cl)
+                        scale = max(float(np.max(np.abs(comps[c]))) for comps, _ in specs for c in COMPONENTS)
+                        recs = [make_record(comps, dt, h) for comps, h in specs]
+                        settings = make_settings(window, corners, detrend, target)
+                        arg = recs[0] if nrec == "one" else recs
+                        obs = _call(lambda: hvsrpy.preprocess(arg, settings))
+                        ctx.count("transitions")
+                        exp = _call(lambda: pipeline(specs, dt, wlen, corners, detrend, target))
+                        ctx.count("validated")
+                        filt = corners != [None, None]
+                        detr = detrend not in (None, "none")
+                        cls = ("filter" if filt else "nofilter") + "+" + ("detrend" if detr else "nodetrend") + "+orient"
+                        site = "preprocess" if window is not None else "preprocess-unsplit"
+                        if obs[0] == "raised" or exp[0] == "raised":
+                            ctx.outcome(("orient", cls, obs[0], obs[1] if obs[0] == "raised" else None))
+                            if obs[0] != exp[0] or obs[1] != exp[1]:
+                                ctx.violation(f"C10:{site}:{cls}:raises-unlike-primitives", root, detail=case,
+                                              expected=exp[1:] if exp[0] == "raised" else f"{len(exp[1])} windows",
+                                              observed=obs[1:] if obs[0] == "raised" else f"{len(obs[1])} windows",
+                                              explanation="preprocess and the documented sequence of steps do not "
+                                                          "fail alike")
+                            continue
+                        got = [tuple(getattr(w, c).amplitude for c in COMPONENTS) for w in obs[1]]
+                        ctx.outcome(("orient", cls, tuple(classes), len(got)))
+                        if any(cl != "whole-turn" for cl in classes):
+                            ctx.nontrivial_case(("orient", rate, label, deploy, turn, window, str(corners), detrend, nrec))
+                        text = compare_windows(got, exp[1], exact=False, scale=scale)
+                        if text is not None:
+                            which = mismatch_oracle(got, specs, dt, wlen, corners, detrend, target, scale)
+                            ctx.violation(f"C10:{site}:{cls}:{which}", root, detail=case,
+                                          expected=ORIENT_EXPECTED, observed=text,
+                                          explanation=f"preprocess output is not the documented pipeline: {text}")
+                        # non-vacuity: leaving the sensor as deployed must be distinguishable
+                        if nrec == "one" and classes[0] != "whole-turn":
+                            w = _call(lambda: pipeline(specs, dt, wlen, corners, detrend, None))
+                            ctx.count("orient_unrotated_evaluated:" + classes[0])
+                            if w[0] == "raised" or compare_windows(w[1], exp[1], exact=False, scale=scale) is not None:
+                                ctx.count("orient_unrotated_differs:" + classes[0])
+                        if turn == 180 and nrec == "three" and filt and detr and not ctx.notes.get("orient_sampled"):
+                            ctx.notes["orient_sampled"] = 1
+                            ctx.sample(dict(kind="orient", case=case, windows=len(got),
+                                            first_window_ns_head=got[0][0][:3]))
 
 
 # ---------------------------------------------------------------------------
@@ -608,10 +782,11 @@ def run_unsplit(root, ctx, tier):
             ctx.nontrivial_case(("unsplit", rate, label, ci, di, oi, ni))
         text = compare_windows(got, exp[1], exact=orient is None, scale=scale)
         if text is not None:
-            ctx.violation(f"C10:preprocess-unsplit:{cls}:order", root, detail=case,
-                          expected="orient -> Butterworth on the whole record -> (no split) -> detrend the "
-                                   f"whole record with type {detrend!r}, from TimeSeries.butterworth_filter/"
-                                   "detrend and SeismicRecording3C.orient_sensor_to",
+            which = mismatch_oracle(got, specs, dt, None, corners, detrend, orient, scale)
+            ctx.violation(f"C10:preprocess-unsplit:{cls}:{which}", root, detail=case,
+                          expected="orient (hvmc.ref.rotation.reorient) -> Butterworth on the whole record -> "
+                                   f"(no split) -> detrend the whole record with type {detrend!r}, from "
+                                   "TimeSeries.butterworth_filter/detrend",
                           observed=text,
                           explanation=f"preprocess(window_length_in_seconds=None) output is not the "
                                       f"documented pipeline: {text}")
@@ -858,6 +1033,15 @@ def roots(tier, seed):
     for rate, window, quick_lengths in HUGE:
         for label in (quick_lengths if tier == "quick" else HUGE_LENGTHS):
             out.append(dict(kind="tiling-huge", rate=rate, window=window, lengths=[label]))
+    # many windows per record: one root per (rate, window, record length)
+    q = tier == "quick"
+    for rate in (LONG_RATES if q else LONG_RATES_THOROUGH):
+        for window in (LONG_WINDOWS if q else LONG_WINDOWS_THOROUGH):
+            for label in (LONG_LENGTHS if q else LONG_LENGTHS_THOROUGH):
+                out.append(dict(kind="tiling-long", rate=rate, window=window, lengths=[label]))
+    for rate, label in (ORIENT_CONFIGS[:2] if q else ORIENT_CONFIGS):
+        for deploy in ORIENT_DEPLOY:
+            out.append(dict(kind="orient", rate=rate, length=label, deploy=deploy))
     for rate in RATES:
         out.append(dict(kind="zerophase", rate=rate))
     # no splitting: full product of the option dimensions under every (rate, record length)
@@ -888,12 +1072,14 @@ def roots(tier, seed):
 
 def run_root(root, ctx, tier):
     kind = root.get("kind")
-    if kind in ("tiling", "tiling-huge"):
+    if kind in ("tiling", "tiling-huge", "tiling-long"):
         run_tiling(root, ctx, tier)
     elif kind == "unsplit":
         run_unsplit(root, ctx, tier)
     elif kind == "order":
         run_order(root, ctx, tier)
+    elif kind == "orient":
+        run_orient(root, ctx, tier)
     elif kind == "zerophase":
         run_zerophase(root, ctx, tier)
     elif kind == "history":
@@ -927,6 +1113,18 @@ def finalize(ctx, tier):
                       observed=dict(evaluated=c.get("unsplit_other_detrend_evaluated", 0), differs=0),
                       explanation="with window_length_in_seconds=None the detrend types never differed: the "
                                   "unsplit order oracle cannot tell which type was applied")
+    for name in ("many_window_cases_with_1000_or_more_windows", "orient_cases", "orient_recordings:half-turn",
+                 "orient_recordings:quarter-turn", "orient_recordings:general-turn", "orient_recordings:whole-turn"):
+        if not c.get(name, 0):
+            ctx.violation(f"C10:harness:non-vacuity:{name}", dict(kind="non-vacuity"),
+                          explanation=f"counter {name} is zero: that part of the space was never entered")
+    for cl in ("half-turn", "quarter-turn", "general-turn"):
+        ev, df = c.get("orient_unrotated_evaluated:" + cl, 0), c.get("orient_unrotated_differs:" + cl, 0)
+        if ev == 0 or df != ev:
+            ctx.violation(f"C10:harness:non-vacuity:unrotated-{cl}", dict(kind="non-vacuity"),
+                          observed=dict(evaluated=ev, differs=df),
+                          explanation=f"leaving the sensor as deployed was not distinguishable from a {cl} on every "
+                                      "single-recording case: the orientation oracle could not fail there")
     if not c.get("order_cases_both_refuse", 0) and tier != "quick":
         ctx.notes["no_refusal_in_order_cases"] = 1
 
@@ -994,5 +1192,36 @@ _describe_base = describe
 
 def describe(tier):     # noqa: F811 - the base description plus what later rounds added to the space
     d = _describe_base(tier)
+    q = tier == "quick"
+    lr, lw, ll = ((LONG_RATES, LONG_WINDOWS, LONG_LENGTHS) if q else
+                  (LONG_RATES_THOROUGH, LONG_WINDOWS_THOROUGH, LONG_LENGTHS_THOROUGH))
+    oc = ORIENT_CONFIGS[:2] if q else ORIENT_CONFIGS
+    n_orient = (len(oc) * len(ORIENT_DEPLOY) * len(ORIENT_TURN) * len(ORIENT_WINDOWS) * len(ORIENT_CORNERS)
+                * len(ORIENT_DETREND) * len(NREC))
+    d["rule"] += (f" Family tiling-long: full product of {len(lr)} rates x {len(lw)} window lengths that are not "
+                  f"exact in binary x {len(ll)} record lengths of 1200 to {'1203' if q else '3000'} windows "
+                  f"({len(lr) * len(lw) * len(ll)} records), TimeSeries.split (3 signals), SeismicRecording3C.split and "
+                  "preprocess (filter off, detrend 'none', one recording), every window located in the record and "
+                  "judged by the exact-rational tiling reference."
+                  f" Family orient: full product of {len(oc)} (rate, record length) x {len(ORIENT_DEPLOY)} deployed "
+                  f"headings x {len(ORIENT_TURN)} turns (requested orientation = heading + turn) x {{1 s windows, no "
+                  f"splitting}} x {len(ORIENT_CORNERS)} corner pairs x {len(ORIENT_DETREND)} detrend modes x {{1, 3}} "
+                  f"recordings ({n_orient} cases); preprocess compared (rtol 1e-9) with reference rotation "
+                  "(hvmc.ref.rotation.reorient) -> whole-record filter -> split -> detrend per window; the order and "
+                  "unsplit families use the same rotation reference. An orient case is non-trivial when some "
+                  "recording is turned by other than a whole turn.")
+    d["bounds"].update(long_rates=lr, long_windows=lw, long_record_lengths=ll,
+                       orient_configs=[list(x) for x in oc], orient_deployed=ORIENT_DEPLOY, orient_turns=ORIENT_TURN,
+                       orient_other_recordings_relative=ORIENT_OTHERS, orient_corners=ORIENT_CORNERS,
+                       orient_detrend=ORIENT_DETREND, orient_windows=ORIENT_WINDOWS, orient_cases=n_orient)
+    d["assumptions"] = [a for a in d["assumptions"] if not a.startswith("the order oracle uses hvsrpy's own")] + [
+        "the order, unsplit and orient oracles use hvsrpy's own TimeSeries.butterworth_filter/split/detrend as "
+        "primitives (split is judged independently by the tiling reference) and the independent plane rotation "
+        "hvmc.ref.rotation.reorient for the orientation step; the window's degrees_from_north label is C04's subject",
+        "in the orient family the second and third recording are deployed 180 and 15 degrees from the first and "
+        "have n+k and n-1 samples; a requested orientation is the float sum heading + turn",
+        "many-window records: preprocess runs with detrend 'none' and one recording only; windows are located by "
+        "bisection in the sorted record (values pairwise distinct)",
+    ]
     d["rule"] = d["rule"] + " " + 'Family history: 3 (quick) / 7 rates x 2 windows x 2 lengths x option cases; before preprocess other TimeSeries of the same time step are filtered with the same corners and orders 3, 2, 8, split and detrended; the windows are compared bit for bit with those computed in a process without history. Family mixed-dt: lists of 3-5 recordings whose time steps follow the patterns aba, baab, abcab, aab; the result must be the concatenation of the single-recording results.'
     return d
